@@ -171,6 +171,8 @@ type Session struct {
 	// with an interactive dialogue whose first (and only) input is the hidden login secret,
 	// acquires the default level and sends the command
 	GateByDialogue bool `json:"gate_by_dialogue,omitempty"`
+	// MarkSecret: the write of the secondary secret passes a yield point of its own (for holds)
+	MarkSecret bool `json:"mark_secret,omitempty"`
 	// PlatVariant: the platform definition's on-open sequence sits in a variant (NewPlatformVariant)
 	PlatVariant bool     `json:"plat_variant,omitempty"`
 	OnClose     []string `json:"on_close,omitempty"`
@@ -453,6 +455,9 @@ func buildSession(env *Env, sc *Session) (*SessionRun, error) {
 	sr := &SessionRun{Sc: sc}
 	sr.Dev = buildDevice(&sc.Dev)
 	sr.Tr = simnet.New(env.K, sr.Dev, sc.Net, sc.F)
+	if sc.MarkSecret && sc.Secondary != "" {
+		sr.Tr.Marked = []byte(sc.Secondary)
+	}
 	env.AtEnd = append(env.AtEnd, sr.Tr.Kill)
 	var impl transport.Implementation = sr.Tr
 	switch sc.Auth {
